@@ -60,8 +60,10 @@ def check_cfg(ctx, fx, cfg):
         ctx.floor("R06.2", "timer APIs (%s)" % cfg, len(apis), 4)
         tcs = timers.timer_coroutines(fx)
         for f in tcs:
-            parent = f.get("parent")
-            ctx.require(parent in apis, "R06.2", "timer-registered:%s@%s" % (parent.split("::")[-1], cfg), "a timer future is not handed to the registering function (it would survive the actor)", fn=f["def"], site=f["loc"])
+            crs = timers.creations(fx, f)
+            ctx.require(bool(crs), "R06.2", "timer-created:%s@%s" % (f["def"], cfg), "cannot see where this timer future is created", fn=f["def"], site=f["loc"])
+            for cr in crs:
+                ctx.require(cr.api["def"] in apis, "R06.2", "timer-registered:%s@%s" % (cr.api["def"].split("::")[-1], cfg), "a timer future is not handed to the registering function (it would survive the actor)", fn=f["def"], site=cr.site)
         # all spawn_future uses in the crate are the registrar and the trait plumbing
         for f, bi, t in graph.all_calls(fx, lambda t: (t.get("callee") or "").endswith("::spawn_future")):
             okc = f["def"] in regs or f["def"].startswith("actor::spawner::SpawnFutures::") or f["def"].startswith("<actor::spawner::")
@@ -126,12 +128,40 @@ def check_timer_list(ctx, fx, cfg, ab, R_ATOMIC, R_ACCESS):
         ctx.require(is_sync, R_ATOMIC, "abort-all-is-atomic:%s@%s" % (name, cfg), "timer handles are taken out of the context's list in an async body: a fault at an await in between leaks them", fn=name, site=a["fn"]["loc"])
     # R06.8 who touches the timer list: the registrar (push), the abort-all functions (drain) and the constructor
     touch = {}
+    holders = timers.list_holders(fx)
+    inner = {a for a, _f in holders[1:]}  # wrapper types around the Vec
+    recorders = set()
     for f in fx.d["fns"]:
         b = ctx.body(fx, f)
-        for bi, where, name_, place in field_accesses(fx, f, b, "context::Context"):
-            if name_ == "tasks":
-                touch.setdefault(f.get("root", f["def"]), []).append(b.term(bi)["l"])
-    allowed = set(ab) | set(r for r in timers.registrars(fx) if r.startswith("context::"))
+        acc = timers.touches_list(fx, f, b)
+        if not acc:
+            continue
+        root = f.get("root", f["def"])
+        # an access that only lends the list to a method of its wrapper type is the wrapper's business
+        own = []
+        for adt, field, bi, place in acc:
+            t_ = b.term(bi)
+            lent = False
+            if adt == "context::Context" and inner and t_["k"] == "call":
+                cal = fx.fn(t_.get("resolved") or t_.get("callee") or "")
+                if cal is not None and (cal.get("impl_self") or "").split("<")[0] in inner and not cal.get("impl_trait"):
+                    lent = True
+            if not lent and adt == "context::Context" and inner:
+                # `_x = &mut self.tasks` feeding such a call
+                for l, defs in b.assigns.items():
+                    for (_bi, _si, st) in defs:
+                        if _bi == bi and st["r"]["k"] == "ref" and st["r"].get("p") == place:
+                            sk = [s for s in sinks(b, l) if s["k"] == "call"]
+                            if sk and all((fx.fn(s["t"].get("resolved") or s["t"].get("callee") or "") or {}).get("impl_self", "").split("<")[0] in inner for s in sk):
+                                lent = True
+            if not lent:
+                own.append(b.term(bi)["l"])
+        if own:
+            touch.setdefault(root, []).extend(own)
+        # a wrapper method that makes a future abortable and records the handle is part of the registrar
+        if (f.get("impl_self") or "").split("<")[0] in inner and any((t_.get("callee") or "").endswith("abortable::abortable") for _x, t_ in b.normal_calls()):
+            recorders.add(root)
+    allowed = set(ab) | set(r for r in timers.registrars(fx) if r.startswith("context::")) | recorders
     for fn_, locs in sorted(touch.items()):
         ctx.require(fn_ in allowed, R_ACCESS, "timer-list-access:%s@%s" % (fn_, cfg), "the context's timer list is accessed outside the registrar and the abort-all function (handles moved elsewhere are not aborted when the actor dies)", fn=fn_, site=locs[0], detail={"sites": len(locs)})
 
@@ -143,8 +173,10 @@ def check_drop_aborts(ctx, fx, cfg, ab, rule):
         direct = dropf["def"] in ab
         calls = [t for _, t in b.normal_calls() if t.get("callee") in ab]
         # on all paths
-        A = nfa.Alphabet(calls=[("abortall", lambda t: t.get("callee") in ab)])
-        n = nfa.build(b, A)
+        A = nfa.Alphabet(calls=[("abortall", lambda t: (t.get("callee") in ab) or (t.get("resolved") in ab))])
+        n = nfa.build(b, A, fx, depth=2)  # the abort-all may sit behind a forwarding method
+        if not calls and nfa.edges_labelled(n, "call:abortall"):
+            calls = [{"callee": "(through a forwarding method)"}]
 
         class Must(nfa.Spec):
             init = (0,)
@@ -160,10 +192,69 @@ def check_drop_aborts(ctx, fx, cfg, ab, rule):
         ctx.require((direct or calls) and not viols, rule, "Context-Drop@" + cfg, "dropping the context does not abort its timer tasks on every path", fn=dropf["def"], site=dropf["loc"], trace=viols[0]["trace"] if viols else None, detail={"direct": direct, "calls": [t["callee"] for t in calls]})
 
 
+class _RegOrder(nfa.Spec):
+    init = (0,)
+
+    def step(self, st, label):
+        if label == "call:push":
+            return (1,)
+        if label == "call:spawn":
+            if st[0] != 1:
+                return nfa.Err("timer spawned before its abort handle was recorded (a panic in between would leak it)")
+            return (2,)
+        if label == "ret" and st[0] != 2:
+            return nfa.Err("registrar returns without recording and spawning on this path")
+        return st
+
+
 def check_registrar(ctx, fx, f, cfg):
     b = ctx.body(fx, f)
     inst = "registrar:%s@%s" % (f["def"], cfg)
     ab = [(bi, t) for bi, t in b.normal_calls() if (t.get("callee") or "").endswith("abortable::abortable")]
+    if not ab:
+        # the wrapping and recording may live in a method of the list's wrapper type that hands back the abortable future:
+        # `let task = self.tasks.register(task); A::spawn_future(task)`
+        inner = {a for a, _f in timers.list_holders(fx)[1:]}
+        helpers = []
+        for hbi, ht in b.normal_calls():
+            h = fx.fn(ht.get("resolved") or ht.get("callee") or "")
+            if h is not None and (h.get("impl_self") or "").split("<")[0] in inner and not h.get("is_async") and any((x.get("callee") or "").endswith("abortable::abortable") for _y, x in ctx.body(fx, h).normal_calls()):
+                helpers.append((hbi, ht, h))
+        if ctx.require(len(helpers) == 1, "R06.2", inst, "the registrar must wrap the timer future with abortable() exactly once (directly or through one method of the task list)", fn=f["def"], site=f["loc"]):
+            hbi, ht, h = helpers[0]
+            hb = ctx.body(fx, h)
+            hinst = "registrar:%s@%s" % (h["def"], cfg)
+            hab = [(bi, t) for bi, t in hb.normal_calls() if (t.get("callee") or "").endswith("abortable::abortable")]
+            okh = len(hab) == 1 and all(r.kind == "arg" for r in roots(hb, hab[0][1]["args"][0]))
+            pair = hab[0][1]["dest"][0] if hab else None
+            fut_l = han_l = None
+            for l, defs in hb.assigns.items():
+                for (_bi, _si, st) in defs:
+                    r = st["r"]
+                    if r["k"] == "use" and r["o"]["k"] in ("move", "copy") and r["o"]["p"][0] == pair and len(r["o"]["p"]) == 2:
+                        if r["o"]["p"][1] == "f0":
+                            fut_l = l
+                        elif r["o"]["p"][1] == "f1":
+                            han_l = l
+            pushed = [s for s in (sinks(hb, han_l) if han_l is not None else []) if s["k"] == "call" and (s["t"].get("callee") or "").endswith("::push") and timers.ABORT_HANDLE in (s["t"].get("self_ty") or "")]
+            on_list = bool(timers.touches_list(fx, h, hb))
+            returned = fut_l is not None and any(s["k"] == "ret" for s in sinks(hb, fut_l))
+            ctx.require(okh and len(pushed) == 1 and on_list and returned, "R06.2", hinst + ":records-handle", "the task-list method must make its argument abortable, record the handle in the list and hand back the abortable future", fn=h["def"], site=h["loc"], detail={"abortable": len(hab), "pushed": len(pushed), "on_list": on_list, "returned": returned})
+            # in the registrar: the helper works on the context's list, gets the parameter, and its result is what is spawned
+            recv_ok = any(a == "context::Context" for a, _f2, bi2, _p in timers.touches_list(fx, f, b))
+            arg_ok = len(ht["args"]) >= 2 and all(r.kind == "arg" for r in roots(b, ht["args"][1]))
+            fs = [s for s in sinks(b, ht["dest"][0]) if s["k"] == "call"]
+            spawned = [s for s in fs if nfa.trait_method(timers.T_SPAWNF, "spawn_future")(s["t"])]
+            ctx.require(recv_ok and arg_ok and len(spawned) == 1, "R06.2", inst + ":spawns-abortable", "the future handed to the runtime must be the abortable one made from the registrar's parameter on the context's own list", fn=f["def"], site=ht["l"], detail={"recv": recv_ok, "arg": arg_ok, "spawned": len(spawned)})
+            A2 = nfa.Alphabet(calls=[("push", lambda x, _h=h: (x.get("resolved") or x.get("callee")) == _h["def"]), ("spawn", nfa.trait_method(timers.T_SPAWNF, "spawn_future"))])
+            n2 = nfa.build(b, A2)
+            v2, p2 = nfa.check(n2, _RegOrder())
+            ctx.count_nfa(n2.stats(), p2)
+            for v in v2:
+                ctx.viol("R06.2", inst + ":order", v["msg"], fn=f["def"], site=f["loc"], trace=v["trace"])
+            if not v2:
+                ctx.ok("R06.2", inst + ":order", f["loc"], n2.stats())
+        return
     if not ctx.require(len(ab) == 1, "R06.2", inst, "the registrar must wrap the timer future with abortable() exactly once", fn=f["def"], site=f["loc"]):
         return
     bi, t = ab[0]
@@ -185,8 +276,8 @@ def check_registrar(ctx, fx, f, cfg):
     pushed = [s for s in hs if (s["t"].get("callee") or "").endswith("::push") and timers.ABORT_HANDLE in (s["t"].get("self_ty") or "")]
     on_tasks = False
     for s in pushed:
-        # receiver is Context.tasks
-        on_tasks = any(name == "tasks" for _bi, _w, name, _p in field_accesses(fx, f, b, "context::Context"))
+        # receiver is the context's timer list
+        on_tasks = bool(timers.touches_list(fx, f, b))
     ctx.require(len(pushed) == 1 and on_tasks, "R06.2", inst + ":records-handle", "the abort handle must be recorded in the context's task list", fn=f["def"], site=t["l"])
     fs = [s for s in sinks(b, fut_l) if s["k"] == "call"]
     spawned = [s for s in fs if nfa.trait_method(timers.T_SPAWNF, "spawn_future")(s["t"])]
@@ -194,21 +285,8 @@ def check_registrar(ctx, fx, f, cfg):
     # all paths: push before spawn, both before return
     A = nfa.Alphabet(calls=[("push", lambda x: (x.get("callee") or "").endswith("::push") and timers.ABORT_HANDLE in (x.get("self_ty") or "")), ("spawn", nfa.trait_method(timers.T_SPAWNF, "spawn_future"))])
 
-    class Reg(nfa.Spec):
-        init = (0,)
-
-        def step(self, st, label):
-            if label == "call:push":
-                return (1,)
-            if label == "call:spawn":
-                if st[0] != 1:
-                    return nfa.Err("timer spawned before its abort handle was recorded (a panic in between would leak it)")
-                return (2,)
-            if label == "ret" and st[0] != 2:
-                return nfa.Err("registrar returns without recording and spawning on this path")
-            return st
     n = nfa.build(b, A)
-    viols, ps = nfa.check(n, Reg())
+    viols, ps = nfa.check(n, _RegOrder())
     ctx.count_nfa(n.stats(), ps)
     for v in viols:
         ctx.viol("R06.2", inst + ":order", v["msg"], fn=f["def"], site=f["loc"], trace=v["trace"])
